@@ -550,7 +550,7 @@ def render(n, depth=0, x=False, subst=None, canon=False):
     their initialisers (shape comparisons are then insensitive to hoisting a sub-expression into a `let`)"""
     if not isinstance(n, dict):
         return "?"
-    if depth > 14:
+    if depth > (40 if (x or canon) else 14):
         return "…"
     k = n.get("k")
     r = lambda y: render(y, depth + 1, x, subst, canon)
@@ -881,6 +881,13 @@ def _survive(e, inl, depth=0):
             return [(e["cond"], False)]
         if "else" in e and div(e["else"]):
             return [(e["cond"], True)]
+        if "else" not in e:
+            # `if A { if B { leave } }`: afterwards !(A && B)  (one nested guard only; expressed as a synthetic conjunction)
+            inner = _survive(e["then"], inl, depth + 1)
+            if len(inner) == 1 and isinstance(inner[0][0], dict):
+                b_, pol_ = inner[0]
+                rhs = b_ if pol_ is False else {"k": "Unary", "op": "Not", "e": b_, "ty": "bool"}
+                return [({"k": "Binary", "op": "And", "l": e["cond"], "r": rhs, "ty": "bool", "synthetic": True}, False)]
         return []
     if k == "Block" and (e.get("inl") or inl or depth == 0 or True):
         inl2 = inl or bool(e.get("inl"))
